@@ -186,6 +186,28 @@ CHECKS["C10"] = dict(
          "reference vectors so that the three runs are comparable.",
     ref="7/C10")
 
+CHECKS["C08"] = dict(
+    technique="property-based testing (Hypothesis), metamorphic: re-encodings of the same measures (scale, zero-weight support, permutation, split, duplicate), memory / chunk size variation, input-format differential, isometry against an LP-certified reference",
+    text="A fitted Wasserstein-style model is applied to re-encoded transform inputs drawn from the group generated by row scaling, "
+         "zero-weight support points (explicit zeros), support permutation, splitting into duplicates and row duplication; the rows must "
+         "be unchanged. transform must agree across memory_size / chunk sizes; spmatrix, lil and generator inputs with shared references "
+         "must give equal embeddings; with full-rank n_components the pairwise distances of embedding_ must equal those of the "
+         "uncompressed LOT vectors (euclidean: own optimal plans certified by a dual bound; cosine: the module's uncompressed vectors). "
+         "Exploration.",
+    note="Vectors get a deterministic jitter so that optimal plans are unique. Heuristic / Approximate models keep their training vectors "
+         "(only scaling and duplication are expressible) and are by design not scale invariant for normalisation power != 1 (not asserted there).",
+    ref="7/C08")
+CHECKS["C13"] = dict(
+    technique="model-based generation of call histories (Hypothesis-generated operation lists over fit / fit_transform / transform / raising transform / refit-twin) with invariants checked after every step",
+    text="For 23 estimator families a history of 3-10 operations is generated as one shrinkable value; the input and constructor-parameter "
+         "objects are created once and reused. After every step: inputs and parameter containers are deep-equal to their snapshots "
+         "(raw bytes of arrays, raw data/indices/indptr of sparse matrices), repeated transforms of an input return the first result, "
+         "a twin with the same integer random_state on deep-copied data agrees to 1e-9, and the private TMPDIR / cachedir is empty - "
+         "also after calls that raise. Exploration over histories and API-boundary faults.",
+    note="Histories are explicit operation lists rather than a RuleBasedStateMachine so that they serialise to the JSON replay format; "
+         "faults inside numpy / scipy (disk full) are not injected.",
+    ref="7/C13")
+
 PENDING_REASON = "check not built yet in this revision of /verif (planned, see DESIGN.md section 7)"
 
 
